@@ -156,6 +156,17 @@ def _impl_worker(args):
         return {'impl_timeout': True}
 
 
+def _close_pool():
+    global _POOL
+    if _POOL is not None:
+        try:
+            _POOL.terminate()
+            _POOL.join()
+        except Exception:
+            pass
+        _POOL = None
+
+
 def impl_many(cases, cfg=None):
     """run the implementation on many cases in worker processes (each case is independent)"""
     global _POOL
@@ -164,6 +175,8 @@ def impl_many(cases, cfg=None):
     import multiprocessing
     if _POOL is None:
         _POOL = multiprocessing.get_context('fork').Pool(min(14, multiprocessing.cpu_count()))
+        import atexit
+        atexit.register(_close_pool)
     return _POOL.map(_impl_worker, [(c, cfg) for c in cases], chunksize=32)
 
 
